@@ -172,6 +172,7 @@ func (fr *Frame) loopCut(b *ssa.BasicBlock, ord int, ci *cfgInfo) {
 			}
 		}
 	}
+	fr.assumeGlobalInvs()
 	for a := range eff.regs {
 		if _, live := fr.st.regs[a]; live {
 			fr.st.regs[a] = fr.freshTyped("lp."+a.Comment, a.Type().(*types.Pointer).Elem())
